@@ -8,6 +8,7 @@ import (
 	"math/rand"
 	"os"
 	"path/filepath"
+	"strings"
 	"sync"
 	"time"
 
@@ -342,5 +343,80 @@ func runStorm(cfg StressConfig, c disk.Cache, rng *rand.Rand, res *StressResult,
 		}
 		res.Violations = append(res.Violations, v)
 	}
+	lookupStorm(cfg, c, res, viol)
 	return res, nil
+}
+
+// lookupStorm: existence checks only - batched FindMissing and Contains on keys that are all present - from eight
+// goroutines at once.  Nothing is added or removed, but every lookup moves its entry to the front of the list:
+// the lookups are writers of the index like everybody else (Cache.tla: ContainsLookup is a lock region).
+// Afterwards the list must still hold every key exactly once, in both directions.
+func lookupStorm(cfg StressConfig, c disk.Cache, res *StressResult, viol func(p, f string, a ...any)) {
+	ctx := context.Background()
+	var ds []*pb.Digest
+	for _, e := range disk.VerifSnapshot(c).Entries {
+		if strings.HasPrefix(e.Key, "cas/") && len(ds) < 48 {
+			ds = append(ds, &pb.Digest{Hash: strings.TrimPrefix(e.Key, "cas/"), SizeBytes: e.Size})
+		}
+	}
+	if len(ds) < 8 {
+		return
+	}
+	before := len(disk.VerifSnapshot(c).Entries)
+	var wg sync.WaitGroup
+	stop := time.Now().Add(5 * time.Second)
+	for g := 0; g < 8; g++ {
+		wg.Add(1)
+		go func(g int) {
+			defer wg.Done()
+			defer func() {
+				if r := recover(); r != nil {
+					viol("C07", "existence checks from 8 goroutines: a lookup panicked: %v", r)
+				}
+			}()
+			for k := 0; k < 40 && time.Now().Before(stop); k++ {
+				rot := append(append([]*pb.Digest{}, ds[(g*5+k)%len(ds):]...), ds[:(g*5+k)%len(ds)]...)
+				if k%3 == 2 {
+					c.Contains(ctx, cache.CAS, rot[0].Hash, rot[0].SizeBytes)
+					continue
+				}
+				cp := make([]*pb.Digest, len(rot))
+				copy(cp, rot)
+				if m, err := c.FindMissingCasBlobs(ctx, cp); err == nil && len(m) != 0 {
+					viol("C10", "existence checks from 8 goroutines: %d of %d present blobs reported missing", len(m), len(rot))
+					return
+				}
+			}
+		}(g)
+	}
+	done := make(chan struct{})
+	go func() { wg.Wait(); close(done) }()
+	select {
+	case <-done:
+	case <-time.After(60 * time.Second):
+		viol("C07", "existence checks from 8 goroutines do not return (an index operation spins or is blocked)")
+		return
+	}
+	snap := make(chan *disk.VerifSnap, 1)
+	go func() { snap <- disk.VerifSnapshot(c) }()
+	select {
+	case s := <-snap:
+		seen := map[string]int{}
+		for _, e := range s.Entries {
+			seen[e.Key]++
+		}
+		for k, n := range seen {
+			if n > 1 {
+				viol("C07", "after concurrent existence checks the recency list holds key %s %d times", k, n)
+				return
+			}
+		}
+		if len(s.Entries) != s.N {
+			viol("C07", "after concurrent existence checks the recency list holds %d entries, the map %d", len(s.Entries), s.N)
+		} else if len(s.Entries) != before {
+			viol("C07", "after concurrent existence checks (nothing added, nothing removed) the recency list holds %d entries, before it held %d", len(s.Entries), before)
+		}
+	case <-time.After(20 * time.Second):
+		viol("C07", "after concurrent existence checks walking the recency list does not terminate (the list is no longer a list)")
+	}
 }
